@@ -89,7 +89,7 @@ def deep_chain_msg(rng, depth):
         rng.randrange(65536), "0", name_str(labels[-1:]), "|".join(rrs[:cut]) or "-", "|".join(rrs[cut:]) or "-")
 
 
-def gen_msg(rng, nrec=None, big=False, wellformed=True, counts=None, chain=None):
+def gen_msg(rng, nrec=None, big=False, wellformed=True, counts=None, chain=None, big_first=None):
     ng = NameGen(rng)
     if chain or rng.random() < 0.1:
         # names extended one label at a time: compression pointer chains as deep as the names are long
@@ -117,8 +117,13 @@ def gen_msg(rng, nrec=None, big=False, wellformed=True, counts=None, chain=None)
             rrs.append("%s/%d/%d/%d/%s" % (name_str(ng.name()), rng.choice([1, 1, 3, 255, rng.randrange(65536)]), t,
                                            rng.choice([0, 1, 60, 300, 2 ** 32 - 1, rng.randrange(2 ** 32)]), rd))
         secs.append("|".join(rrs) or "-")
+    if big_first:
+        # one opaque record of `big_first` octets in front: every name after it is first written beyond that offset, so
+        # the pointers between them carry offsets of 13 and 14 significant bits (and, past 16 KiB, none at all)
+        rr0 = "%s/1/16/60/X:%s" % (name_str(q), hexs(rbytes(rng, big_first)))
+        secs[0] = rr0 if secs[0] == "-" else rr0 + "|" + secs[0]
     edns = rng.random() < 0.6
-    rc = rng.choice([0, 2, 3, 5, 15]) if not edns else rng.choice([0, 3, 5, 16, 23, 4095])
+    rc = rng.choice([0, 2, 3, 5, 15]) if not edns else rng.choice([0, 3, 5, 16, 23, 255, 256, 3841, 4095])
     fl = "".join(rng.choice("01") for _ in range(7)) + (rng.choice("01") if edns else "0")
     if wellformed:
         fl = fl[0] + "0" + fl[2:]            # TC clear
@@ -275,7 +280,12 @@ class DnsDec(Suite):
             else:
                 deep = rng.random() < 0.03
                 # names around the 255-octet / 127-label limit, each extending the one before, written in full
-                m = deep_chain_msg(rng, rng.choice([120, 126, 127, 128, 129, 140])) if deep else gen_msg(rng, wellformed=True)
+                if deep:
+                    m = deep_chain_msg(rng, rng.choice([120, 126, 127, 128, 129, 140]))
+                elif rng.random() < 0.04:
+                    m = gen_msg(rng, nrec=rng.choice([4, 8, 12]), wellformed=True, big_first=rng.choice([4000, 8100, 8200, 9000, 12000, 16200, 16400, 20000]))
+                else:
+                    m = gen_msg(rng, wellformed=True)
                 try:
                     b = bytearray(enc_msg(m, rng, compress=(rng.random() < 0.8 and not deep)))
                 except Exception:
